@@ -1,7 +1,330 @@
 import Tbx.Model.StaticGraph
 import Tbx.Model.DynGraph
 import Tbx.Spec.Adj
+import Tbx.Proofs.SGraphSpec
+import Tbx.Proofs.DGraphRefine
+/-
+C14 — static and dynamic graphs represent exactly the edges they were given.
+
+Property theorems only (helper lemmas live in Tbx/Proofs).  Registered in Tbx/Audit/C14.lean.
+Models: Tbx.SG (src/static_graph.rs), Tbx.DG (src/dynamic_graph.rs).  Spec: Tbx.Adj
+(number of nodes + edge multiset; adjacency lists up to `List.Perm`).
+
+Not kernel-checkable and therefore only compared per case by the harness: that the f64 expression
+`(edge_count as f64 * GROWTH_FACTOR) as usize` equals the integer `edge_count * num / den`
+(the theorems hold for ANY growth length > edge_count: `reloc_makes_room`).
+-/
 namespace Tbx.Props.C14
+open Tbx
+open Tbx.SG (InEdge EEntry maxId toSpec SortedBySrc)
+
+/-! ## the judge -/
+
+/-- the judge's comparison of canonical (sorted) adjacency lists is exactly multiset equality -/
 theorem judge_canon_sound (a b : List (Nat × Int)) : Adj.canon a = Adj.canon b ↔ a.Perm b :=
   Adj.canon_eq_iff_perm a b
+
+/-- the judge's `find_edge` expectation is the Spec's `HasEdge` -/
+theorem judge_hasEdge_sound (σ : Adj.S) (s t : Nat) : Adj.hasEdgeB σ s t = true ↔ Adj.HasEdge σ s t :=
+  Adj.hasEdgeB_iff σ s t
+
+/-- the judge's node count for a static graph is the largest id mentioned, plus one -/
+theorem judge_maxId_sound (es : List Adj.Edge) (hne : es ≠ []) : Adj.IsMaxId es (Adj.maxIdOf es) :=
+  SG.maxIdOf_isMaxId es hne
+
+/-! ## static graph -/
+
+/-- P0 `find_edge_exact`: on `StaticGraph::new(inp)`, `find_edge(s,t)` returns `Some e` only for an
+    `e` of `edge_range(s)` with `target(e) = t` (the first such); it answers iff the input has an edge
+    s→t; it is `None` (and `find_edge_unchecked` is `EdgeID::MAX`) for every `s ≥ number_of_nodes`
+    (the D10 boundary); `find_edge_unchecked` is the same answer with MAX for `None`. -/
+theorem find_edge_exact (inp : List InEdge) (s t : Nat) :
+    (∀ e, SG.findEdge (SG.new inp) s t = some e →
+        s < SG.numberOfNodes (SG.new inp) ∧ e ∈ SG.edgeRange (SG.new inp) s ∧ SG.target (SG.new inp) e = t ∧
+        ∀ j ∈ SG.edgeRange (SG.new inp) s, j < e → SG.target (SG.new inp) j ≠ t) ∧
+    ((SG.findEdge (SG.new inp) s t).isSome ↔ ∃ d, (⟨s, t, d⟩ : InEdge) ∈ inp) ∧
+    (SG.numberOfNodes (SG.new inp) ≤ s →
+        SG.findEdge (SG.new inp) s t = none ∧ SG.findEdgeUnchecked (SG.new inp) s t = maxId) ∧
+    SG.findEdgeUnchecked (SG.new inp) s t = (SG.findEdge (SG.new inp) s t).getD maxId := by
+  refine ⟨fun e h => SG.findEdge_some _ s t e h, ?_, ?_, SG.findEdgeUnchecked_eq _ s t⟩
+  · rw [SG.new_eq, SG.nfsl_findEdge_isSome _ (SG.sorted_sortedBySrc inp)]
+    constructor
+    · rintro ⟨d, hd⟩; exact ⟨d, (SG.sorted_perm inp).mem_iff.mp hd⟩
+    · rintro ⟨d, hd⟩; exact ⟨d, (SG.sorted_perm inp).mem_iff.mpr hd⟩
+  · intro hs
+    have h1 : SG.findEdge (SG.new inp) s t = none := (SG.findEdge_none _ s t).mpr (Or.inl hs)
+    refine ⟨h1, ?_⟩
+    rw [SG.findEdgeUnchecked_eq, h1]; rfl
+
+/-- non-vacuity / D10 regression: on the 2-node graph of the corpus witness the fixed guard answers
+    `None` for s = 2 = number_of_nodes, the legacy guard (`s > n`) indexes past the sentinel (panic) -/
+example : SG.numberOfNodes (SG.newFromSortedList [⟨0, 1, 5⟩]) = 2 ∧
+    SG.findEdge (SG.newFromSortedList [⟨0, 1, 5⟩]) 2 0 = none ∧
+    SG.findEdge (SG.newFromSortedList [⟨0, 1, 5⟩]) 0 1 = some 0 ∧
+    SG.legacyFindEdge (SG.newFromSortedList [⟨0, 1, 5⟩]) 2 0 = none ∧
+    SG.legacyFindEdge (SG.newFromSortedList [⟨0, 1, 5⟩]) 3 0 = some none := by decide
+
+/-- P1 `static_ranges` for `new_from_sorted_list`: for a list sorted by source (only), the graph has
+    max id + 1 nodes, `edge_range(v)` read through `target`/`data` is EXACTLY the sublist of the input
+    with source `v` (same order), the out-degree is its length, and nodes ≥ number_of_nodes have no
+    input edges -/
+theorem static_ranges_sorted (inp : List InEdge) (hs : SortedBySrc inp) :
+    (inp ≠ [] → Adj.IsMaxId (toSpec inp) (SG.numberOfNodes (SG.newFromSortedList inp) - 1)) ∧
+    SG.numberOfEdges (SG.newFromSortedList inp) = inp.length ∧
+    (∀ v, v < SG.numberOfNodes (SG.newFromSortedList inp) →
+        SG.adjList (SG.newFromSortedList inp) v = Adj.adjOf (toSpec inp) v ∧
+        SG.outDegree (SG.newFromSortedList inp) v = (Adj.adjOf (toSpec inp) v).length) ∧
+    (∀ v, SG.numberOfNodes (SG.newFromSortedList inp) ≤ v → Adj.adjOf (toSpec inp) v = []) := by
+  refine ⟨?_, by simp [SG.numberOfEdges, SG.newFromSortedList], ?_, ?_⟩
+  · intro hne
+    rw [SG.nfsl_numberOfNodes inp hs, Nat.add_sub_cancel]
+    exact SG.maxIdLoop_isMaxId inp inp (List.Perm.refl _) hne
+  · intro v hv
+    rw [SG.adjOf_toSpec]
+    refine ⟨SG.nfsl_adjList inp hs v hv, ?_⟩
+    rw [SG.nfsl_outDegree inp hs v hv]; simp
+  · intro v hv
+    rw [SG.nfsl_numberOfNodes inp hs] at hv
+    rw [SG.adjOf_toSpec]
+    have : inp.filter (fun e => e.src == v) = [] := by
+      rw [List.filter_eq_nil_iff]
+      intro x hx
+      have := (SG.maxIdLoop_ge inp 0).2 x hx
+      simp; omega
+    rw [this]; rfl
+
+/-- P1 `static_ranges`: for EVERY edge list (any order, duplicates, gaps), `StaticGraph::new` has
+    max id + 1 nodes (the judge's `maxIdOf + 1`), all edges, and `edge_range(v)` lists exactly the
+    (target,data) multiset of `v`'s input edges -/
+theorem static_ranges (inp : List InEdge) (hne : inp ≠ []) :
+    Adj.IsMaxId (toSpec inp) (SG.numberOfNodes (SG.new inp) - 1) ∧
+    SG.numberOfNodes (SG.new inp) = Adj.maxIdOf (toSpec inp) + 1 ∧
+    SG.numberOfEdges (SG.new inp) = inp.length ∧
+    (∀ v, v < SG.numberOfNodes (SG.new inp) →
+        (SG.adjList (SG.new inp) v).Perm (Adj.adjOf (toSpec inp) v) ∧
+        SG.outDegree (SG.new inp) v = (Adj.adjOf (toSpec inp) v).length) ∧
+    (∀ v, SG.numberOfNodes (SG.new inp) ≤ v → Adj.adjOf (toSpec inp) v = []) := by
+  have hp := SG.sorted_perm inp
+  have hs := SG.sorted_sortedBySrc inp
+  have hnn : SG.numberOfNodes (SG.new inp) = SG.maxIdLoop (SG.sorted inp) 0 + 1 := SG.nfsl_numberOfNodes _ hs
+  have hmax : Adj.IsMaxId (toSpec inp) (SG.maxIdLoop (SG.sorted inp) 0) := SG.maxIdLoop_isMaxId inp _ hp hne
+  have hperm : ∀ v, (Adj.adjOf (toSpec (SG.sorted inp)) v).Perm (Adj.adjOf (toSpec inp) v) := by
+    intro v; rw [SG.adjOf_toSpec, SG.adjOf_toSpec]; exact (hp.filter _).map _
+  have hne' : toSpec inp ≠ [] := by
+    intro h; apply hne; simpa [toSpec] using h
+  obtain ⟨_, h2, h3, h4⟩ := static_ranges_sorted (SG.sorted inp) hs
+  refine ⟨?_, ?_, ?_, ?_, ?_⟩
+  · rw [hnn, Nat.add_sub_cancel]; exact hmax
+  · rw [hnn, SG.isMaxId_unique _ _ _ hmax (SG.maxIdOf_isMaxId _ hne')]
+  · rw [SG.new_eq, h2, hp.length_eq]
+  · intro v hv
+    have := h3 v hv
+    refine ⟨?_, ?_⟩
+    · rw [SG.new_eq, this.1]; exact hperm v
+    · rw [SG.new_eq, this.2]; exact (hperm v).length_eq
+  · intro v hv
+    exact ((hperm v).symm.trans (List.Perm.of_eq (h4 v hv))).eq_nil
+
+/-- non-vacuity: an unsorted list with a gap (node 1) and a duplicate; sorted it reads back per node -/
+example : SortedBySrc [⟨0, 1, 3⟩, ⟨0, 2, 5⟩, ⟨0, 2, 5⟩, ⟨2, 0, 7⟩] ∧
+    SG.adjList (SG.newFromSortedList [⟨0, 1, 3⟩, ⟨0, 2, 5⟩, ⟨0, 2, 5⟩, ⟨2, 0, 7⟩]) 0 = [(1, 3), (2, 5), (2, 5)] ∧
+    SG.adjList (SG.newFromSortedList [⟨0, 1, 3⟩, ⟨0, 2, 5⟩, ⟨0, 2, 5⟩, ⟨2, 0, 7⟩]) 1 = [] ∧
+    SG.adjList (SG.newFromSortedList [⟨0, 1, 3⟩, ⟨0, 2, 5⟩, ⟨0, 2, 5⟩, ⟨2, 0, 7⟩]) 2 = [(0, 7)] ∧
+    SG.numberOfNodes (SG.newFromSortedList [⟨0, 1, 3⟩, ⟨0, 2, 5⟩, ⟨0, 2, 5⟩, ⟨2, 0, 7⟩]) = 3 := by
+  refine ⟨by unfold SortedBySrc; decide, by decide, by decide, by decide, by decide⟩
+
+/-- data written through an edge id of a static graph is read back; targets and other data are untouched -/
+theorem static_data_mut_read_back (g : SG.Graph) (e : Nat) (d : Int) (he : e < g.edges.size) :
+    SG.data (SG.setData g e d) e = d ∧ (∀ x, SG.target (SG.setData g e d) x = SG.target g x) ∧
+    (∀ x, x ≠ e → SG.data (SG.setData g e d) x = SG.data g x) ∧ (SG.setData g e d).nodes = g.nodes := by
+  refine ⟨?_, ?_, ?_, rfl⟩
+  · simp [SG.data, SG.setData, gt_st_eq _ _ _ he]
+  · intro x
+    simp only [SG.target, SG.setData]
+    by_cases c : e = x
+    · subst c; rw [gt_st_eq _ _ _ he]
+    · rw [gt_st_ne _ _ _ _ c]
+  · intro x hx
+    simp only [SG.data, SG.setData]
+    rw [gt_st_ne _ _ _ _ (fun h => hx h.symm)]
+
+/-! ## dynamic graph: the representation invariant -/
+
+/-- what `DG.Inv` says, in the words of the property: slices of nodes with count > 0 are pairwise
+    disjoint intervals inside the edge array; a slot is non-spare (target ≠ usize::MAX) iff it belongs
+    to a slice, and then to exactly one; number_of_edges is the sum of the counts; the node array has
+    two (empty) entries past the last node -/
+theorem dyn_inv_meaning (g : DG.Graph) (h : DG.Inv g) :
+    (∀ u v, u ≠ v → (gt g.nodes u).count > 0 → (gt g.nodes v).count > 0 →
+        (gt g.nodes u).first + (gt g.nodes u).count ≤ (gt g.nodes v).first ∨
+        (gt g.nodes v).first + (gt g.nodes v).count ≤ (gt g.nodes u).first) ∧
+    (∀ e, e < g.edges.size → ((gt g.edges e).tgt ≠ maxId ↔ ∃ v, v < g.numNodes ∧ DG.owns g v e)) ∧
+    (∀ e u v, DG.owns g u e → DG.owns g v e → u = v) ∧
+    (∀ v, v < g.nodes.size → (gt g.nodes v).first + (gt g.nodes v).count ≤ g.edges.size) ∧
+    g.numEdges = DG.sumCounts g.nodes g.numNodes ∧ g.nodes.size = g.numNodes + 2 := by
+  refine ⟨?_, ?_, fun e u v h1 h2 => h.disj u v e h1 h2, h.bound, h.edges, h.size⟩
+  · intro u v hne hu hv
+    rcases Nat.lt_or_ge (gt g.nodes u).first (gt g.nodes v).first with c | c
+    · -- the last slot of u's slice would otherwise be in v's slice
+      rcases Nat.lt_or_ge (gt g.nodes v).first ((gt g.nodes u).first + (gt g.nodes u).count) with c2 | c2
+      · exfalso
+        exact hne (h.disj u v (gt g.nodes v).first ⟨by omega, c2⟩ ⟨Nat.le_refl _, by omega⟩)
+      · left; exact c2
+    · rcases Nat.lt_or_ge (gt g.nodes u).first ((gt g.nodes v).first + (gt g.nodes v).count) with c2 | c2
+      · exfalso
+        exact hne (h.disj u v (gt g.nodes u).first ⟨Nat.le_refl _, by omega⟩ ⟨c, c2⟩)
+      · right; exact c2
+  · intro e he
+    constructor
+    · exact h.spare e he
+    · rintro ⟨v, _, ho⟩; exact h.used v e ho
+
+/-- the constructor establishes the invariant and represents its input (ids below `n`) -/
+theorem dyn_refines_new (n : Nat) (inp : List InEdge) (hn : n ≤ maxId)
+    (hids : Adj.idsBelow n (toSpec inp) = true) : DG.Refines (DG.new n inp) (Adj.init n (toSpec inp)) :=
+  DG.refines_new n inp hn hids
+
+/-- `Default::default()` is the empty graph (D19 fixed) -/
+theorem dyn_refines_default : DG.Refines DG.dflt (Adj.init 0 []) := by
+  have h := DG.refines_new 0 [] (by decide) rfl
+  have e : DG.new 0 [] = DG.dflt := by
+    simp [DG.new, DG.newFromSortedList, DG.offsetsLoop, DG.dflt]
+  rw [e] at h; exact h
+
+/-- D19 regression: on the legacy `Default` (empty node array) `insert_node` and `find_edge` panic -/
+example : DG.insertNode DG.legacyDflt = none ∧ DG.findEdge DG.legacyDflt 0 0 = none ∧
+    DG.insertEdge DG.legacyDflt 0 1 5 = none ∧
+    (DG.insertNode DG.dflt).isSome ∧ DG.findEdge DG.dflt 0 0 = some none := by decide
+
+/-- `insert_edge` (right spare, left spare, relocation) never panics under the invariant, preserves
+    it, creates the nodes up to its endpoints and appends (t,d) to s's adjacency multiset only -/
+theorem dyn_inv_insert_edge (g : DG.Graph) (s t : Nat) (d : Int) (hI : DG.Inv g) (ht : t ≠ maxId) :
+    ∃ g', DG.insertEdge g s t d = some g' ∧ DG.Inv g' ∧ g'.numNodes = max g.numNodes (max s t + 1) ∧
+      g'.numEdges = g.numEdges + 1 ∧ (DG.adjM g' s).Perm (DG.adjM g s ++ [(t, d)]) ∧
+      (∀ v, v ≠ s → DG.adjM g' v = DG.adjM g v) :=
+  DG.insertEdge_inv g s t d hI ht
+
+/-- the three branches separately (what `insert_edge` does before writing the new entry): the
+    invariant is preserved, the slot one past s's slice is in bounds and spare, s's adjacency is
+    permuted at most, every other node's adjacency is unchanged -/
+theorem dyn_inv_place_slice (g g3 : DG.Graph) (s : Nat) (d : Int) (hI : DG.Inv g) (hs : s < g.numNodes)
+    (h : DG.placeSlice g s d = some g3) :
+    DG.Inv g3 ∧ g3.numNodes = g.numNodes ∧ g3.numEdges = g.numEdges ∧
+    (gt g3.nodes s).first + (gt g3.nodes s).count < g3.edges.size ∧
+    (gt g3.edges ((gt g3.nodes s).first + (gt g3.nodes s).count)).tgt = maxId ∧
+    (DG.adjM g3 s).Perm (DG.adjM g s) ∧ (∀ v, v ≠ s → DG.adjM g3 v = DG.adjM g v) :=
+  DG.placeSlice_inv g g3 s d hI hs h
+
+/-- regenerated obligation: the relocated slice has room for the old edges and the new one
+    (GROWTH_FACTOR's literal, re-read from /repo on every run, is at least 1) -/
+theorem reloc_makes_room (c : Nat) : c < DG.growLen c := DG.growLen_gt c
+
+/-- STATED, NOT PROVED (floating point is outside the kernel's reach): the Rust's f64 growth
+    computation equals the integer expression used by the model for every count below 2^50.  The
+    driver evaluates both on every relocation (statistic `fmis`, expected 0) and the harness compares
+    the raw slice positions per case (F lines). -/
+def growth_float_statement : Prop :=
+  ∀ c : Nat, c < 2 ^ 50 → DG.growLenFloat c = DG.growLen c
+
+/-- `remove_edge(s, e)` for an edge id of s's slice never panics, preserves the invariant, removes
+    exactly (target e, data e) from s's adjacency multiset and decrements number_of_edges -/
+theorem dyn_inv_remove_edge (g : DG.Graph) (s e : Nat) (hI : DG.Inv g) (hs : s < g.numNodes) (ho : DG.owns g s e) :
+    ∃ g', DG.removeEdge g s e = some g' ∧ DG.Inv g' ∧ g'.numNodes = g.numNodes ∧ g'.numEdges + 1 = g.numEdges ∧
+      (DG.adjM g s).Perm ((DG.target g e, DG.data g e) :: DG.adjM g' s) ∧ (∀ v, v ≠ s → DG.adjM g' v = DG.adjM g v) :=
+  DG.removeEdge_inv g s e hI hs ho
+
+/-- `insert_node` never panics under the invariant, preserves it, adds one node without edges -/
+theorem dyn_inv_insert_node (g : DG.Graph) (hI : DG.Inv g) :
+    ∃ g', DG.insertNode g = some g' ∧ DG.Inv g' ∧ g'.numNodes = g.numNodes + 1 ∧ g'.numEdges = g.numEdges ∧
+      (∀ v, DG.adjM g' v = DG.adjM g v) := by
+  obtain ⟨g', hg'⟩ := Option.isSome_iff_exists.mp (DG.insertNode_isSome g hI)
+  obtain ⟨h1, h2, h3, _, _, h6⟩ := DG.insertNode_inv g g' hI hg'
+  exact ⟨g', hg', h1, h2, h3, h6⟩
+
+/-- data written through an edge id is read back from it; the invariant, all targets and every other
+    node's adjacency are untouched; in s's adjacency (target e, old data) is replaced by (target e, d') -/
+theorem dyn_data_mut_read_back (g : DG.Graph) (s e : Nat) (d' : Int) (hI : DG.Inv g) (hs : s < g.numNodes)
+    (ho : DG.owns g s e) :
+    DG.Inv (DG.setData g e d') ∧ DG.data (DG.setData g e d') e = d' ∧
+    (∀ x, DG.target (DG.setData g e d') x = DG.target g x) ∧
+    ((DG.target g e, DG.data g e) :: DG.adjM (DG.setData g e d') s).Perm ((DG.target g e, d') :: DG.adjM g s) ∧
+    (∀ v, v ≠ s → DG.adjM (DG.setData g e d') v = DG.adjM g v) := by
+  obtain ⟨h1, _, _, h4, h5, h6, h7⟩ := DG.setData_inv g s e d' hI hs ho
+  exact ⟨h1, h4, h5, h6, h7⟩
+
+/-! ## dynamic graph: refinement of the adjacency-multiset Spec -/
+
+/-- `dyn_refines`, one operation: from a state that represents `σ`, every in-domain operation
+    succeeds (no panic) and leads to a state that represents the Spec's result -/
+theorem dyn_refines (g : DG.Graph) (σ : Adj.S) (o : DG.DOp) (h : DG.Refines g σ) (hok : DG.okOp g o) :
+    ∃ g', DG.stepM g o = some g' ∧ DG.Refines g' (DG.stepS g σ o) :=
+  DG.step_refines g σ o h hok
+
+/-- `dyn_refines`, whole histories: for every sequence of insert_edge / insert_node / remove_edge /
+    data_mut operations whose edge ids are valid when used, the model never panics and its final
+    state represents the net effect computed by the Spec -/
+theorem dyn_refines_history (ops : List DG.DOp) (g : DG.Graph) (σ : Adj.S) (h : DG.Refines g σ)
+    (hv : DG.ValidHistory g ops) :
+    ∃ g', DG.runM g ops = some g' ∧ DG.Refines g' (DG.runS g σ ops) :=
+  DG.history_refines ops g σ h hv
+
+/-- an edge the Spec knows is found by scanning `edge_range(s)` for its (target,data): this is how
+    the harness turns `rem s t d` / `setd s t d d2` into an edge id, so histories that are valid for
+    the Spec are valid for the model -/
+theorem dyn_pick_edge (g : DG.Graph) (σ : Adj.S) (h : DG.Refines g σ) (s t : Nat) (d : Int)
+    (hm : (⟨s, t, d⟩ : Adj.Edge) ∈ σ.es) :
+    s < g.numNodes ∧ ∃ e, DG.owns g s e ∧ e ∈ DG.edgeRange g s ∧ DG.target g e = t ∧ DG.data g e = d := by
+  have h1 : (t, d) ∈ DG.adjM g s := (h.adj s).mem_iff.mpr ((DG.mem_adjOf σ.es s t d).mpr hm)
+  obtain ⟨hs, e, ho, hp⟩ := DG.owns_of_mem_adjM g s _ h1
+  exact ⟨hs, e, ho, List.mem_range'_1.mpr ho, congrArg Prod.fst hp, congrArg Prod.snd hp⟩
+
+/-- what the `Graph` trait shows of a state representing `σ`: node and edge counts are exact, the
+    out-degree is the number of σ's edges at the node, `edge_range` read through `target`/`data` is σ's
+    adjacency multiset, and there are no edges at ids ≥ number_of_nodes -/
+theorem dyn_observers (g : DG.Graph) (σ : Adj.S) (h : DG.Refines g σ) :
+    DG.numberOfNodes g = Adj.numNodes σ ∧ DG.numberOfEdges g = Adj.numEdges σ ∧
+    (∀ v, v < g.numNodes → DG.outDegree g v = Adj.degree σ v ∧ (DG.adjList g v).Perm (Adj.adjOf σ.es v)) ∧
+    (∀ v, g.numNodes ≤ v → Adj.adjOf σ.es v = []) :=
+  DG.refines_observers g σ h
+
+/-- `find_edge` on the dynamic graph never panics, answers iff σ has an edge s→t (so: `None` for every
+    s ≥ number_of_nodes although the guard is `s > n`), and a returned id lies in s's slice with target t -/
+theorem dyn_find_edge_exact (g : DG.Graph) (σ : Adj.S) (h : DG.Refines g σ) (s t : Nat) :
+    ∃ r, DG.findEdge g s t = some r ∧ (r.isSome ↔ Adj.HasEdge σ s t) ∧ (g.numNodes ≤ s → r = none) ∧
+      (∀ e, r = some e → DG.owns g s e ∧ DG.target g e = t) :=
+  DG.refines_findEdge g σ h s t
+
+/-- non-vacuity for the dynamic theorems: the packed 3-node graph of the corpus satisfies the
+    hypotheses (`Refines`, hence `Inv`; slot 1 is owned by node 1), and the history
+    "insert 0→2 (relocation), insert 1→0 (left spare), remove slot of 2→0, insert 2→1 (hole reuse)"
+    runs without panic and ends in a 5-edge graph -/
+example : DG.Refines (DG.new 3 [⟨0, 1, 1⟩, ⟨1, 2, 2⟩, ⟨2, 0, 3⟩]) (Adj.init 3 (toSpec [⟨0, 1, 1⟩, ⟨1, 2, 2⟩, ⟨2, 0, 3⟩])) :=
+  dyn_refines_new 3 _ (by decide) (by decide)
+
+/-- `new_from_sorted_list` on a list sorted by source with sources below `n`: invariant, and the
+    adjacency of every node is exactly (same order) the sublist of its input edges -/
+theorem dyn_new_sorted (n : Nat) (inp : List InEdge) (hs : SortedBySrc inp)
+    (hsrc : ∀ x ∈ inp, x.src < n) (htgt : ∀ x ∈ inp, x.tgt ≠ maxId) :
+    DG.Inv (DG.newFromSortedList n inp) ∧
+    ∀ v, DG.adjM (DG.newFromSortedList n inp) v = Adj.adjOf (toSpec inp) v := by
+  have h := DG.nfsl_inv n inp hs hsrc htgt
+  refine ⟨h.1, fun v => ?_⟩
+  rw [h.2 v, SG.adjOf_toSpec]
+
+/-- non-vacuity: the packed graph satisfies `Inv`; slot 1 is owned by node 1; inserting at node 0
+    takes the relocation branch; a two-step history (relocating insert, then insert_node) is valid -/
+example : DG.Inv (DG.newFromSortedList 3 [⟨0, 1, 1⟩, ⟨1, 2, 2⟩, ⟨2, 0, 3⟩]) :=
+  (dyn_new_sorted 3 _ (by unfold SortedBySrc; decide) (by decide) (by decide)).1
+
+example : DG.owns (DG.newFromSortedList 3 [⟨0, 1, 1⟩, ⟨1, 2, 2⟩, ⟨2, 0, 3⟩]) 1 1 ∧
+    DG.placeBranch (DG.newFromSortedList 3 [⟨0, 1, 1⟩, ⟨1, 2, 2⟩, ⟨2, 0, 3⟩]) 0 = 2 := by
+  unfold DG.owns; decide
+
+example : DG.ValidHistory (DG.newFromSortedList 3 [⟨0, 1, 1⟩, ⟨1, 2, 2⟩, ⟨2, 0, 3⟩]) [.ins 0 2 4, .node] :=
+  ⟨by show (2 : Nat) ≠ maxId; decide, fun _ _ => ⟨trivial, fun _ _ => trivial⟩⟩
+
+example : ((DG.runM (DG.newFromSortedList 3 [⟨0, 1, 1⟩, ⟨1, 2, 2⟩, ⟨2, 0, 3⟩])
+      [.ins 0 2 4, .ins 1 0 5, .rem 2 2, .ins 2 1 6]).map fun g => (g.numEdges, DG.adjList g 0, DG.adjList g 1, DG.adjList g 2))
+    = some (5, [(1, 1), (2, 4)], [(2, 2), (0, 5)], [(1, 6)]) := by decide
+
 end Tbx.Props.C14
